@@ -108,7 +108,19 @@ def analyse_index(prog, rep, pub, path, formula_text):
     name = pub.name
     entry = '%s[%s]' % (name, path.backend)
     kern, bind, casts, mbcall = kernel_binding(prog, pub, path)
-    k = interpret(prog, kern)
+    try:
+        k = interpret(prog, kern)
+    except AnalysisIncomplete:
+        from ..sharedrules import flat_alias_of_like
+        fa = flat_alias_of_like(kern)
+        if fa:
+            x, alias, base, node, like = fa[0]
+            rep.add('M1-store', kern, entry, '%s = %s; %s[..] = ...' % (alias, norm(node.value), alias), x.lineno, False,
+                    'the index is written through a flattened alias of `%s`, which is allocated like the input band (%s): for a '
+                    'column-major or transposed band the alias is a copy and every stored cell is lost (the result stays NaN)'
+                    % (base, norm(like) if like is not None else 'flatten() always copies'))
+            return kern, set()
+        raise
     rets = returned_arrays(k)
     if len(rets) != 1:
         raise AnalysisIncomplete('%s: kernel %s does not return one array' % (entry, kern.qualname))
@@ -163,6 +175,13 @@ def analyse_index(prog, rep, pub, path, formula_text):
                     return Rat.sym(root)
                 if isinstance(expr, ast.Constant) and isinstance(expr.value, (int, float)):
                     return Rat.const(expr.value)
+            if isinstance(a, Sym) and a.name in kern.params and a.name not in bind:
+                # a kernel parameter this path does not pass: it has the kernel's default, not the caller's value - even
+                # when it happens to be called like a public parameter
+                dflt = kern.defaults().get(a.name)
+                if isinstance(dflt, ast.Constant) and isinstance(dflt.value, (int, float)) and not isinstance(dflt.value, bool):
+                    return Rat.const(dflt.value)
+                return Rat.sym('<kernel default of %s>' % a.name)
             return None
         cases = value_cases(s.value, s.guards)
         defined = [(c_, v_) for c_, v_ in cases if not is_nan_value(v_)]
